@@ -122,7 +122,8 @@ def _shape(clause: str, rec) -> str:
     b = rec["b"]
     k = 1 if b[0] in PRE_SET else 0
     op = b[k]
-    return f"op{op:02X}" + (":absbits" if _abs_hi(b, k, op) else "") + (":fhigh" if rec.get("seed", 0) < 0 else "") + (":block" if rec.get("seed", 0) >= BLOCK else "")
+    mode = f":m{b[k + 1] >> 4:X}" if op in (0xE3, 0xEB) else ""          # register-indirect block moves: which addressing form
+    return f"op{op:02X}" + mode + (":absbits" if _abs_hi(b, k, op) else "") + (":fhigh" if rec.get("seed", 0) < 0 else "") + (":block" if rec.get("seed", 0) >= BLOCK else "")
 
 
 def programs(cr: CheckRun, nprog: int, nsteps: int) -> None:
